@@ -399,6 +399,10 @@ func (g *Gen) modEntryNames(fc *FnCtx, sp *FuncSpec, e string) []string {
 		fc.regArr("$top", "Int")
 		return []string{"$top"}
 	}
+	if e == "maplen" {
+		fc.regArr("G!maplen", "(Array Int Int)")
+		return []string{"G!maplen"}
+	}
 	if strings.HasPrefix(e, "elems(") {
 		tn := strings.TrimSuffix(strings.TrimPrefix(e, "elems("), ")")
 		env := &Env{fc: fc, pkg: g.pkg.Pkg}
@@ -527,8 +531,19 @@ func (fr *Frame) call(in ssa.Instruction, c *ssa.CallCommon, b *ssa.BasicBlock, 
 			var conds []string
 			var vals []Val
 			rest := guard
-			for _, im := range fc.g.implementers(c) {
+			impls := fc.g.implementersL(c, fc.spec != nil && fc.spec.Lemma)
+			for _, im := range impls {
+				// dynamic type statically known: only that implementer
+				if sEq(recv.Sub[0].S, fc.typeID(im.recvT)) == "true" {
+					impls = []implRec{im}
+					break
+				}
+			}
+			for _, im := range impls {
 				is := sEq(recv.Sub[0].S, fc.typeID(im.recvT))
+				if is == "false" {
+					continue
+				}
 				gi := sAnd(guard, is)
 				rest = sAnd(rest, sNot(is))
 				all := append([]Val{{T: im.recvT, S: recv.Sub[1].S}}, args...)
@@ -542,6 +557,10 @@ func (fr *Frame) call(in ssa.Instruction, c *ssa.CallCommon, b *ssa.BasicBlock, 
 				sts = append(sts, st2)
 				conds = append(conds, is)
 				vals = append(vals, r)
+			}
+			if len(sts) == 1 && conds[0] == "true" {
+				setRes(vals[0])
+				return sts[0]
 			}
 			names := sp.paramNames(nil, sig, true)
 			all := append([]Val{recv}, args...)
@@ -1338,7 +1357,9 @@ type implRec struct {
 }
 
 // implementers: zapx methods with a contract that can be the target of this interface call.
-func (g *Gen) implementers(c *ssa.CallCommon) []implRec {
+func (g *Gen) implementers(c *ssa.CallCommon) []implRec { return g.implementersL(c, false) }
+
+func (g *Gen) implementersL(c *ssa.CallCommon, lemma bool) []implRec {
 	iface, ok := c.Value.Type().Underlying().(*types.Interface)
 	if !ok {
 		return nil
@@ -1347,7 +1368,7 @@ func (g *Gen) implementers(c *ssa.CallCommon) []implRec {
 	for _, name := range g.specs.Order {
 		sp := g.specs.Funcs[name]
 		fn := g.fnByName[name]
-		if fn == nil || fn.Signature.Recv() == nil || fn.Name() != c.Method.Name() || sp.Trusted {
+		if fn == nil || fn.Signature.Recv() == nil || fn.Name() != c.Method.Name() || sp.Trusted || (sp.Harness && !lemma) {
 			continue
 		}
 		rt := fn.Signature.Recv().Type()
